@@ -84,6 +84,10 @@ fn main() {
         "C17" => c17::run(&mut sink, thorough, seed),
         "C08" => c08::run(&mut sink, thorough, seed),
         "C15" => c15::run(&mut sink, thorough, seed),
+        // the raw_value configuration of C16 runs op c16x only (its pool holds the objects keyed by the private RawValue token)
+        #[cfg(feature = "rv")]
+        "C16" => c16x::run(&mut sink, thorough, seed),
+        #[cfg(not(feature = "rv"))]
         "C16" => { c16::run(&mut sink, thorough, seed); typed::run_tt(&mut sink, thorough, seed); c16x::run(&mut sink, thorough, seed); }
         "C04" => {
             c04::run(&mut sink, thorough, seed);
@@ -138,19 +142,23 @@ fn replay(sink: &mut common::Sink, toks: &[&str]) {
         "serc" | "serp" | "serbufs" | "serbufx" | "disp" => c03::replay(sink, toks),
         "dispf" | "dispn" => c03::replay(sink, toks),
         "maphist" | "mapeqh" | "mapeq" | "maphash" | "mapsort" => c17::replay(sink, toks),
+        "mapiter" => c17::replay(sink, toks),
         "f64lit" | "f32lit" => c08::replay(sink, toks),
         "tov" | "tovagree" => c15::replay(sink, toks),
         "c16" => c16::replay(sink, toks),
         "c16x" => c16x::replay(sink, toks),
         "rtv" | "rtt" => c04::replay(sink, toks),
         "rtm" => c04m::replay(sink, toks),
+        "rtw" => c04m::replay(sink, toks),
         "tt" | "tt3" | "pfxs" | "rfaults" => typed::replay(sink, toks),
+        "ttd" => typed::replay(sink, toks),
         "f64rt" | "f32rt" | "f64pr" | "f32pr" | "f32all" => c07::replay(sink, toks),
         "rawser" | "rawnest" | "stream3" | "sdepth" | "spfx" | "raw3" => streamraw::replay(sink, toks),
         "lm" => lexmath::replay(sink, toks),
         "tstream" | "tstream3" | "tsfault" | "tspfx" => stypes::replay(sink, toks),
         "lc3" | "lcs" => linecol::replay(sink, toks),
         "rd" | "rs" => readers::replay(sink, toks),
+        "rsa" => readers::replay(sink, toks),
         _ => eprintln!("cannot replay op {}", toks[0]),
     }
 }
